@@ -142,7 +142,7 @@ fn environment_sweep(tier: &str, rec: &Recorder, out: &mut RunOutput) {
     let mut runs = 0u64;
     // fast_gnp with a seed: same graph under every hash seed and pool size
     for directed in [false, true] {
-        for (n, p) in [(10, 0.5), (40, 0.1), (120, 0.05)] {
+        for (n, p) in [(10, 0.5), (40, 0.1), (120, 0.05), (300, 0.02), (1500, 0.004), (5000, 0.001)] {
             for seed in [0u64, 1, 42] {
                 let reference = on_fresh_thread(0, move || gnp_canon(n, p, directed, seed)).unwrap_or_else(|e| format!("panic {}", e.msg));
                 for hs in 1..hash_seeds {
